@@ -45,12 +45,20 @@ func (s *Storage) AllocateKeys(identifier string, interval uint64, initial uint6
 	if err != nil {
 		return nil, err
 	}
+	if err := gate("AllocateKeys.read", identifier); err != nil {
+		tx.Rollback()
+		return nil, err
+	}
 
 	row := tx.Stmt(s.keyStmt.selectStatement).QueryRow(identifier)
 
 	var start uint64
 	var counter int64
 	err = row.Scan(&counter)
+	if gerr := gate("AllocateKeys.write", identifier); gerr != nil {
+		tx.Rollback()
+		return nil, gerr
+	}
 
 	switch err {
 	case sql.ErrNoRows:
@@ -77,10 +85,18 @@ func (s *Storage) AllocateKeys(identifier string, interval uint64, initial uint6
 		}
 	}
 
+	if err := gate("AllocateKeys.commit", identifier); err != nil {
+		tx.Rollback()
+		gate("AllocateKeys.rolledback", identifier)
+		return nil, err
+	}
 	err = tx.Commit()
 	if err != nil {
 		lg.Error("Unable to commit sequence with identifier %s (interval: %d, initial: %d): %v",
 			identifier, interval, initial, err)
+	}
+	if err := gate("AllocateKeys.committed", identifier); err != nil {
+		return nil, err
 	}
 	start = uint64(counter)
 
